@@ -25,6 +25,8 @@ func init() {
 		Run: runC17,
 	})
 	addMutants("C17",
+		mutant{"Encode reserves the read buffer", "codec/websocket/frame_codec.go",
+			"\tdst.Reserve(frame.PayloadLength() + frameMaxHeaderLength)", "\tc.src.Reserve(frame.PayloadLength() + frameMaxHeaderLength)", "C17-R4"},
 		mutant{"flush error swallowed", "codec/websocket/stream.go",
 			"\t\t\tif err != nil {\n\t\t\t\tcallback(err)\n\t\t\t} else {\n\t\t\t\ts.AsyncFlush(callback)\n\t\t\t}", "\t\t\tif err == nil {\n\t\t\t\ts.AsyncFlush(callback)\n\t\t\t}", "C17-R2"},
 		mutant{"too-big message completes twice", "codec/websocket/stream.go",
